@@ -246,6 +246,7 @@ class Vocab:
         self.subs, self.methods, self.empties = subs or {}, methods or {}, list(empties)
         self.ret, self.raising, self.returns, self.fuel = ret, raising, list(returns), fuel
         self.fall, self.init_env = fall, dict(init_env or {})
+        self.effects = []                    # (statement pattern source, [pseudo-locals it writes]) for statements handled by `stmts`
         self.iters = {}                      # type -> (lean template of the list iterated, element type): `for x in <local of that type>`
         self.consts = dict(consts or {})     # parameter (role name) -> Python bool: the function is specialised to that value
 
@@ -683,7 +684,7 @@ class Compiler:
             thn = self.block(body, env, exits if tb else fall_next, ind + "  ")
             els = self.block(orelse, env, exits if te else fall_next, ind + "  ")
             return self.with_pre(pre, f"{ind}if {c} then (\n{thn})\n{ind}else (\n{els})", ind, exits)
-        asg = [x for x in self.assigned(body + orelse)]
+        asg = [x for x in self.assigned(body + orelse)] + self.effect_names(body + orelse)
         env2 = dict(env)
         raising = self.probe_raising(body + orelse, env, {})
         if raising and exits.get("raise") is None: raise self.err("a raising expression in a function / loop the vocabulary declares total")
@@ -726,8 +727,18 @@ class Compiler:
             raise
         return False
 
+    def effect_names(self, stmts):
+        out = []
+        for src, names in getattr(self.v, "effects", []):
+            pat = _pat_stmt(src, self.pmap)
+            for st in stmts:
+                for n in ast.walk(st):
+                    if isinstance(n, ast.stmt) and pmatch(pat, n, {}):
+                        out += [x.replace("self", "p0") for x in names if x.replace("self", "p0") not in out]
+        return out
+
     def loop_sig(self, body_nodes, extra_nodes, env, own):
-        carried = sorted([x for x in self.assigned(body_nodes) if x in env and x not in own and env[x] != "Ignored"], key=_natkey)
+        carried = sorted([x for x in self.assigned(body_nodes) + self.effect_names(body_nodes) if x in env and x not in own and env[x] != "Ignored"], key=_natkey)
         used = self.used(body_nodes + extra_nodes)
         frees = [x for x in env if x in used and x not in carried and x not in own and env[x] != "Ignored"]
         return carried, frees
